@@ -114,7 +114,8 @@ impl Http1Parser {
     pub fn parse_request(&self, data: &[u8]) -> Result<Option<Http1Request>, Http1ParseError> {
         let start_time = Instant::now();
 
-        let data_str = std::str::from_utf8(data).map_err(|_| Http1ParseError::InvalidUtf8)?;
+        let data_str =
+            std::str::from_utf8(head_bytes(data)).map_err(|_| Http1ParseError::InvalidUtf8)?;
 
         if !data_str.contains("\r\n\r\n") && !data_str.contains("\n\n") {
             return Ok(None);
@@ -206,7 +207,8 @@ impl Http1Parser {
     pub fn parse_response(&self, data: &[u8]) -> Result<Option<Http1Response>, Http1ParseError> {
         let start_time = Instant::now();
 
-        let data_str = std::str::from_utf8(data).map_err(|_| Http1ParseError::InvalidUtf8)?;
+        let data_str =
+            std::str::from_utf8(head_bytes(data)).map_err(|_| Http1ParseError::InvalidUtf8)?;
 
         if !data_str.contains("\r\n\r\n") && !data_str.contains("\n\n") {
             return Ok(None);
@@ -447,6 +449,27 @@ impl Http1Parser {
                 | "REPORT"
         )
     }
+}
+
+/// The message head: everything up to and including the first blank line (`CRLF CRLF` or `LF LF`).
+/// Only the head has to be text; the body that follows may be arbitrary binary data.
+/// Without a blank line the whole buffer is returned (the head is still incomplete).
+fn head_bytes(data: &[u8]) -> &[u8] {
+    let crlf_end = data
+        .windows(4)
+        .position(|w| w == b"\r\n\r\n")
+        .map(|pos| pos.saturating_add(4));
+    let lf_end = data
+        .windows(2)
+        .position(|w| w == b"\n\n")
+        .map(|pos| pos.saturating_add(2));
+    let end = match (crlf_end, lf_end) {
+        (Some(a), Some(b)) => a.min(b),
+        (Some(a), None) => a,
+        (None, Some(b)) => b,
+        (None, None) => data.len(),
+    };
+    data.get(..end).unwrap_or(data)
 }
 
 impl Default for Http1Parser {
